@@ -21,6 +21,24 @@ pub struct PMsg {
     pub senders: Vec<IpcSender<PMsg>>,
     pub receivers: Vec<IpcReceiver<PMsg>>,
     pub regions: Vec<IpcSharedMemory>,
+    /// last field: when set, serialisation fails after every attachment above has been visited
+    pub fail: FailIf,
+}
+
+pub struct FailIf(pub bool);
+impl Serialize for FailIf {
+    fn serialize<S: serde::Serializer>(&self, s: S) -> Result<S::Ok, S::Error> {
+        if self.0 {
+            return Err(serde::ser::Error::custom("deliberate serialisation failure"));
+        }
+        s.serialize_u8(0)
+    }
+}
+impl<'de> Deserialize<'de> for FailIf {
+    fn deserialize<D: serde::Deserializer<'de>>(d: D) -> Result<Self, D::Error> {
+        let _ = u8::deserialize(d)?;
+        Ok(FailIf(false))
+    }
 }
 
 // ------------------------------------------------------------------ model
@@ -110,6 +128,7 @@ pub struct Bias {
     pub servers: bool,
     pub regions: bool,
     pub failing_ops: bool, // connect to missing names etc. (C11 only; outcome not model-defined on inproc)
+    pub failing_serialize: bool,
     pub max_chans: usize,
     pub ops: usize,
 }
@@ -220,7 +239,7 @@ impl Interp {
         let id = self.fresh_id();
         let qlen = self.model.chans[ch].queue.len();
         let len = if qlen < 8 && self.rng.chance(150) { self.rng.range(1024, 4096) } else { self.rng.below(700) } as usize;
-        let mut m = PMsg { id, data: Blob(body(id, len)), senders: vec![], receivers: vec![], regions: vec![] };
+        let mut m = PMsg { id, data: Blob(body(id, len)), senders: vec![], receivers: vec![], regions: vec![], fail: FailIf(false) };
         let mut mm = MMsg { id, len, senders: vec![], receivers: vec![], regions: vec![] };
         if self.rng.chance(450) {
             // embed sender handles (moved or cloned) of higher channels
@@ -270,8 +289,19 @@ impl Interp {
         let op = format!("send s{} ch{} id={} len={} embeds s{:?} r{:?} g{}", si, ch, mm.id, mm.len, mm.senders, mm.receivers, mm.regions.len());
         self.ops.push(op.clone());
         let alive = self.model.rx_alive(ch);
+        // now and then the value cannot be serialised: nothing is sent, every handle in it dies
+        let fails = self.bias.failing_serialize && self.rng.chance(40);
+        let mut m = m;
+        if fails {
+            m.fail = FailIf(true);
+        }
+        let op = if fails { format!("{} [serialisation fails]", op) } else { op };
         let r = self.world.senders[si].as_ref().unwrap().0.send(m);
         let got = norm_send(&r);
+        if fails {
+            self.model.destroy_msg(mm);
+            return self.expect(&op, "send-error".into(), got);
+        }
         if alive {
             self.model.chans[ch].queue.push_back(mm);
             self.expect(&op, "ok".into(), got)
